@@ -188,8 +188,62 @@ def hash_ops(rng, h, n, mode, keys):
     return ops
 
 
+def both_dump(prefix, ids):
+    return ["%s %d dump" % (prefix, i) for i in ids]
+
+
+def sc_empty(rng, n):
+    """binary / whole-object operations (swap, move, copy, release, reset, compare) on EMPTY and embedded-storage objects,
+    each followed by insertions into BOTH objects and dumps of BOTH (aliasing between the two objects shows up there)"""
+    ops = [arena_new(rng)]
+    # hash tables
+    ops += ["H new 1", "H new 2", "H new 3"]
+    for rnd in range(rng.randrange(2, 5)):
+        a, b = rng.sample([1, 2, 3], 2)
+        ops.append(rng.choice(["H %d swap %d" % (a, b), "H %d swap %d" % (b, a), "H %d move_from %d" % (a, b), "H %d release" % a, "H %d reset" % a]))
+        ops += both_dump("H", [1, 2, 3])
+        for t in rng.sample([1, 2, 3], rng.randrange(1, 4)):
+            for _ in range(rng.randrange(1, 4)):
+                k = rng.randrange(0, 1000)
+                ops.append("H %d insert %d %d" % (t, k + 1000 * t + 10000 * rnd, k))
+            ops += both_dump("H", [1, 2, 3])
+        ops.append("H %d get %d %d" % (rng.randrange(1, 4), rng.randrange(0, 1000) + 1000, rng.randrange(0, 1000)))
+        if rng.random() < 0.5:
+            ops.append("A get %d 16" % (900 + rnd))
+    # vectors
+    item = rng.choice([4, 12])
+    ops += ["V new 1 %d" % item, "V new 2 %d" % item]
+    for rnd in range(3):
+        a, b = rng.sample([1, 2], 2)
+        ops.append(rng.choice(["V %d swap %d", "V %d move_from %d", "V %d move_ctor %d", "V %d concat %d"]) % (a, b))
+        ops += ["V 1 info", "V 2 info", "V %d append %d" % (b, rnd + 1), "V %d append %d" % (a, rnd + 10), "V 1 info", "V 2 info"]
+        if rng.random() < 0.4:
+            ops.append("V %d release" % a)
+    # bit sets of different sizes, including empty ones
+    ops += ["B new 1", "B new 2", "B new 3"]
+    for rnd in range(5):
+        a, b = rng.sample([1, 2, 3], 2)
+        ops.append(rng.choice(["B %d swap %d", "B %d copy_from %d", "B %d equals %d", "B %d or_ %d", "B %d and %d", "B %d andnot %d"]) % (a, b))
+        ops += ["B 1 info", "B 2 info", "B 3 info"]
+        ops.append("B %d resize %d %d" % (rng.choice([a, b]), rng.choice([0, 1, 63, 64, 65, 130, 200]), rng.randrange(0, 2)))
+        ops.append("B %d append %d" % (rng.choice([1, 2, 3]), rng.randrange(0, 2)))
+    # strings
+    ops += ["S new 1", "S new 2"]
+    for rnd in range(4):
+        a, b = rng.sample([1, 2], 2)
+        ops.append(rng.choice(["S %d swap %d", "S %d move_from %d", "S %d move_ctor %d"]) % (a, b))
+        ops += ["S 1 eq -", "S 2 eq -", "S %d append %s" % (b, rbytes(rng, rng.choice([1, 5, 31, 40]))), "S 1 eq -", "S 2 eq -"]
+    # lists and trees
+    ops += ["L new 1", "L new 2", "T new 1", "T new 2", "L 1 swap 2", "L 2 append 1", "L 1 dump", "L 2 dump", "L 2 swap 1", "L 2 prepend 2",
+            "L 1 dump", "L 2 dump", "T 1 swap 2", "T 2 insert 5", "T 1 get 5", "T 2 get 5", "T 2 swap 1", "T 2 insert 6", "T 1 get 5", "T 1 get 6", "T 2 get 6"]
+    ops.append("A stats")
+    return ops
+
+
 def sc_hash(rng, n):
     ops = [arena_new(rng), "H new 1", "H new 2"]
+    if rng.random() < 0.6:
+        ops += [rng.choice(["H 1 swap 2", "H 2 swap 1", "H 1 move_from 2", "H 2 reset", "H 1 release"]), "H 1 dump", "H 2 dump"]
     mode = rng.randrange(0, 5)
     k1, k2 = [], []
     ops += hash_ops(rng, 1, n // 2, mode, k1)
@@ -405,7 +459,7 @@ def sc_mixed(rng, n):
     return ops
 
 
-SCENARIOS = [("arena", sc_arena, 3), ("arena_reuse", sc_arena_reuse, 2), ("dyn_only", sc_dyn_only, 1), ("vector", sc_vector, 3), ("hash", sc_hash, 2),
+SCENARIOS = [("empty", sc_empty, 3), ("arena", sc_arena, 3), ("arena_reuse", sc_arena_reuse, 2), ("dyn_only", sc_dyn_only, 1), ("vector", sc_vector, 3), ("hash", sc_hash, 2),
              ("tree", sc_tree, 3), ("list", sc_list, 1), ("bits", sc_bits, 3), ("string", sc_string, 3), ("mixed", sc_mixed, 3)]
 
 # deterministic witnesses of the defects found while building the check (kept as regression scenarios)
@@ -416,6 +470,8 @@ FIXED = [
     ("w_lastindex", ["A new 1024 0", "V new 1 4", "V 1 append 5", "V 1 append 6", "V 1 append 5", "V 1 last_index_of 5", "V 1 index_of 5"]),
     ("w_format_fill", ["A new 1024 0", "S new 1", "S 1 append " + "41" * 200, "S 1 append_format " + "42" * 311, "S 1 append 43",
                        "S 1 assign_format " + "44" * 511, "S 1 assign_format " + "45" * 1300, "S 1 append_format -"]),
+    ("w_swap_empty", ["A new 1024 0", "H new 1", "H new 2", "H 1 swap 2", "H 2 insert 7 7", "H 1 dump", "H 2 dump", "H 1 get 7 7", "H 2 insert 8 8",
+                      "H 1 dump", "H 2 dump", "A get 1 16", "A get 2 16"]),
     ("w_assign0", ["A new 1024 0", "S new 1", "S 1 append 616263", "S 1 assign_chars 120 0", "S 1 append 64", "S 1 assign_span -", "S 1 assign_hex - 0"]),
 ]
 
@@ -477,12 +533,22 @@ def prime_search(rows):
 # ------------------------------------------------------------------------------------------------
 # running
 # ------------------------------------------------------------------------------------------------
+FLAGS = []      # -D flags decided by the compile probe in run()
 ENV = {"ASAN_OPTIONS": "detect_leaks=1:abort_on_error=0:exitcode=99:allocator_may_return_null=1:max_allocation_size_mb=1048576"}
 
 
 ENV_SMALL_MALLOC = {"ASAN_OPTIONS": ENV["ASAN_OPTIONS"].replace("max_allocation_size_mb=1048576", "max_allocation_size_mb=16")}
 # allocation failure inside String::_op_vformat (the allocator refuses 20 MB): judged by the monitor only
 FORMAT_OOM = ("oom_format", ["A new 1024 0", "S new 1", "S 1 append " + "41" * 200, "S 1 append_format_w 20000000 4242", "S 1 append 43"])
+
+
+def run_driver(lines, timeout=1800):
+    """the Lean driver under an address-space limit: a monitor/model bug must not be able to exhaust the machine"""
+    import shutil
+    cmd = [str(vlib.driver_path()), "C18"]
+    if shutil.which("prlimit"):
+        cmd = ["prlimit", "--as=%d" % (6 << 30)] + cmd
+    return vlib.run_lines(cmd, lines, timeout)
 
 
 def run_impl(h, ops):
@@ -502,7 +568,7 @@ def judge(h, ops):
                    idx=len(impl), stderr=err[-2500:])
         # still let the monitor judge what was answered before the abort
     n = min(len(impl), len(ops))
-    mon, rc2, err2 = vlib.run_model("C18", ["M %s | %s" % (o, a) for o, a in zip(ops[:n], impl[:n])])
+    mon, rc2, err2 = run_driver(["M %s | %s" % (o, a) for o, a in zip(ops[:n], impl[:n])])
     res["mon"] = mon
     if rc2 != 0 or len(mon) != n:
         res.update(kind="protocol", key="protocol", what="monitor protocol failure: " + err2[-300:], idx=0)
@@ -560,21 +626,37 @@ def run(res):
         res.violation("Lean driver does not build", {"log": out[-3000:]}, found_input=False, key="driver")
         return
 
+    # -- compile probe: the move operations of the containers must be instantiable ------------------
+    flags = []
+    base = ["g++", "-std=c++17", "-DASMJIT_STATIC", "-fsyntax-only", "-I", str(vlib.REPO), str(vlib.VERIF / "harness" / "c18_move_probe.cpp")]
+    pv = vlib.sh(base + ["-DC18_PROBE_VECTOR_ONLY"])
+    pa = vlib.sh(base)
+    if pv.returncode == 0:
+        flags.append("-DC18_HAVE_MOVE_ASSIGN")
+    if pa.returncode == 0:
+        flags.append("-DC18_HAVE_HASH_MOVE")
+    if pa.returncode != 0:
+        err = [l for l in (pv.stderr + pa.stderr).splitlines() if "error" in l]
+        res.violation("move operations of the arena containers cannot be instantiated (ArenaVector::operator=(ArenaVector&&) / "
+                      "ArenaHash(ArenaHash&&)): " + " | ".join(err[:2])[:500],
+                      {"source": "harness/c18_move_probe.cpp", "how": " ".join(base), "errors": err[:6]}, True, key="compile:move")
+    FLAGS[:] = flags
+
     # -- L2b correspondence + L3 monitor ------------------------------------------------------------
-    h = vlib.build_harness("c18")
+    h = vlib.build_harness("c18", extra_flags=flags)
     pi, _, _ = run_impl(h, ["H primes"])
-    pm, _, _ = vlib.run_model("C18", ["H primes"])
+    pm, _, _ = run_driver(["H primes"])
     if pi != pm:
         broken.append("prime table seen by the compiler (%s) differs from the table the translator generated (%s)" % (pi, pm))
 
     scenarios = gen_scenarios(rng, res.tier)
     scenarios += prime_search(rows)
-    hplain = vlib.build_harness("c18", flavor="plain")
+    hplain = vlib.build_harness("c18", flavor="plain", extra_flags=flags)
 
     def one(sc):
         name, ops = sc
         j = judge(h, ops)
-        model, rc, err = vlib.run_model("C18", ops)
+        model, rc, err = run_driver(ops)
         j["name"], j["ops"], j["model"], j["model_rc"] = name, ops, model, rc
         return j
 
